@@ -402,7 +402,7 @@ fn record_history(rep: &mut Report, label: &str, ops: &[Op], v: HistoryVerdict) 
     if v.ended_undocumented {
         rep.count("histories_ended_at_an_undocumented_case");
     }
-    for r in &v.renderings {
+    for r in v.renderings.iter().filter(|r| r.len() <= 64) {
         rep.seen_str("distinct_renderings_visited", r);
     }
     if let Some(msg) = v.failure {
@@ -432,7 +432,28 @@ pub fn history_workload(ctx: &Ctx, n_hist: u64, label: &str) -> Report {
             if i % 1024 == 0 && ctx.over_budget() {
                 break;
             }
-            let ops = random_history(&mut rng);
+            let mut ops = random_history(&mut rng);
+            if i % 64 == 63 {
+                // a long run of one operation inside a short history: counters and lengths that only overflow or wrap
+                // after hundreds of steps (256 dictated zeros, 70 000 pushed digits)
+                let at = rng.usize(ops.len());
+                let reps = match rng.below(200) {
+                    // (a 65 000-step history costs about a second: every step renders the whole builder)
+                    0 if i % 8192 == 63 => 65_530 + rng.usize(20),
+                    0..=60 => 250 + rng.usize(12),
+                    61..=120 => 16 + rng.usize(120),
+                    _ => 2 + rng.usize(14),
+                };
+                let op = if rng.chance(1, 2) { Op::Put("0".into()) } else { ops[at].clone() };
+                let mut long: Vec<Op> = ops[..at].to_vec();
+                long.extend(std::iter::repeat(op).take(reps));
+                long.extend(ops[at..].iter().cloned());
+                ops = long;
+                rep.count("histories_with_a_long_run_of_one_operation");
+                if reps > 60_000 {
+                    rep.count("histories_with_a_run_longer_than_65535");
+                }
+            }
             let v = run_history(&ops);
             record_history(rep, label, &ops, v);
         }
@@ -546,7 +567,7 @@ pub fn run(ctx: &Ctx) -> Outcome {
     rep.merge(boundary_workload(ctx, ctx.n(200_000, 4_000_000)));
     // debug-profile leg (overflow checks, debug_assert): the same history workload in a child process
     super::legs::run_leg(ctx, &mut rep, "debug", "T2N_LEG_DEBUG", &["c12", &ctx.seed.to_string(), &ctx.n(300_000, 6_000_000).to_string()], 600);
-    let rule = "histories = every sequence of 3 operations (thorough: 4, budget permitting; counters exhaustive_*) over the full argument alphabet, and random sequences of 1..9 operations over put / put_digit_at / shift / fput / push / freeze / reset with arguments biased to zeros and to the widths the interpreters use (2,3,6,9,12); after every step: rendering is ASCII digits, len() agrees, on Err all queries (to_string,len,is_empty,is_null,peek,is_free,is_position_free,is_range_free,is_ordinal at 9 positions / 6 ranges) unchanged, frozen => refused, non-zero digits kept in order, and status + all queries equal to the positional model wherever the documentation settles the case (undocumented cases end the history); run in the release profile and again in a debug-profile child (overflow checks, debug_assert); plus the state invariants on every builder state crossing apply() in text workloads; non-trivial = history with at least one judged step";
+    let rule = "histories = every sequence of 3 operations (thorough: 4, budget permitting; counters exhaustive_*) over the full argument alphabet, and random sequences of 1..9 operations (one in 64 with one operation repeated up to 65 549 times) over put / put_digit_at / shift / fput / push / freeze / reset with arguments biased to zeros and to the widths the interpreters use (2,3,6,9,12); after every step: rendering is ASCII digits, len() agrees, on Err all queries (to_string,len,is_empty,is_null,peek,is_free,is_position_free,is_range_free,is_ordinal at 9 positions / 6 ranges) unchanged, frozen => refused, non-zero digits kept in order, and status + all queries equal to the positional model wherever the documentation settles the case (undocumented cases end the history); run in the release profile and again in a debug-profile child (overflow checks, debug_assert); plus the state invariants on every builder state crossing apply() in text workloads; non-trivial = history with at least one judged step";
     finish(ctx, rep, rule, &["push after freeze, put with a leading-zero multi-digit argument, put on a shorter buffer, put_digit_at with digit 0 or position 0, shift(0) and a shift whose destination lies beyond the left edge are not judged (documentation silent)", "fput must succeed unless frozen; its placement is compared with the overwrite model and a divergence only ends the history"], vec![])
 }
 
